@@ -474,6 +474,17 @@ class MiniInterp:
                 for h in st.handlers:
                     names = ["BaseException"] if h.type is None else \
                         [attr_chain(x) or "?" for x in (h.type.elts if isinstance(h.type, ast.Tuple) else [h.type])]
+                    if h.type is not None and any(isinstance(x, ast.Name) and x.id in env for x in (h.type.elts if isinstance(h.type, ast.Tuple) else [h.type])):
+                        # `except <variable>`: the classes the variable holds (a tuple handed to a decorator factory ...)
+                        def exc_names(v):
+                            if isinstance(v, T) and v and v[0] in ("external", "builtin"):
+                                return [str(v[1]).replace(":", ".").split(".")[-1]]
+                            if isinstance(v, T) and v and v[0] == "class":
+                                return [v[1].name]
+                            if isinstance(v, (tuple, list)) and not isinstance(v, T):
+                                return [n_ for x in v for n_ in exc_names(x)]
+                            raise Unknown("except clause over a value that is not an exception class")
+                        names = exc_names(self.ev(h.type, env, fi))
                     from .core import exc_is_caught
                     if exc_is_caught(ex.name, names):
                         if h.name:
